@@ -75,7 +75,7 @@ def gen_panel_def(rng, allow_none_model=True, mmax=5):
          'm': rng.randint(3, mmax), 'n': rng.randint(3, mmax), 'flags': gen_flags(rng),
          'stack': rng.choice(STACKS), 'plyt': 1.25e-4, 'per_ply': rng.random() < 0.2,
          # a per-ply table may contain a ply of zero thickness (a dropped ply kept in the table): it contributes nothing
-         'zero_ply': rng.choice([None, None, rng.randrange(8)]),
+         'zero_ply': rng.choice([None, None, rng.randrange(8)]), 'forces_np': rng.random() < 0.3,
          'offset': rng.choice([0.0, 0.0, 2e-4, -1e-4]),
          'Nxx': rng.choice([None, -1.0, -50.0]), 'Nyy': rng.choice([None, None, -3.0]), 'Nxy': rng.choice([None, None, 2.0]),
          'Nxx_cte': rng.choice([None, None, -5.0]),
@@ -114,6 +114,9 @@ def gen_ops(rng, menu, nmin=5, nmax=30, heavy=()):
               'attr': rng.choice(['Nxx', 'Nyy', 'Nxy', 'mu', 'a', 'b', 'offset', 'flag', 'plyt', 'Nxx_cte']), 'val': rng.uniform(0.3, 2.5),
               # shells: full-size (prescribed amplitudes included) or reduced amplitude vector, with or without a load factor
               'full': rng.random() < 0.4, 'winc': rng.random() < 0.5}
+        if name == 'save_load' and rng.random() < 0.35:
+            # disk fault while the object is being saved: no space at open(), or a write that fails after some bytes
+            op['fault'] = {'seam': 'disk', 'kind': rng.choice(['enospc_at_open', 'short_write']), 'bytes': rng.choice([0, 17, 300, 4096])}
         if name not in ('set_cores', 'set_ni_cores', 'save_load', 'get_size') and rng.random() < 0.07:
             # transient allocation failure: the j-th call of an internal building block (laminate construction,
             # connection constants/kernels, matrix symmetrisation, linear-matrix set-up) raises MemoryError
@@ -275,6 +278,8 @@ def _input_digest(x):
     import numpy as np
     if isinstance(x, np.ndarray):
         return sha_bytes(x.tobytes())
+    if isinstance(x, (list, tuple)):
+        return sha_bytes(('[' + ','.join(_input_digest(e) for e in x) + ']').encode())
     return sha_bytes(repr(x).encode())
 
 
@@ -315,6 +320,14 @@ def apply_panel_def(p, d, inputs=None):
         p.Mach, p.V, p.rho_air, p.speed_sound = 2.0, 600.0, 0.3, 300.0
     p.forces = [list(f[:2]) + list(f[2:]) for f in ([[f[0] * d['a'], f[1] * d['b']] + f[2:] for f in d['forces']])]
     p.forces_inc = [[f[0] * d['a'], f[1] * d['b']] + f[2:] for f in d['forces_inc']]
+    if d.get('forces_np'):
+        # load tables kept as float64 arrays (rows of a load-case table) instead of lists
+        import numpy as np
+        p.forces = [np.array(f, dtype=float) for f in p.forces]
+        p.forces_inc = [np.array(f, dtype=float) for f in p.forces_inc]
+    if inputs is not None and (p.forces or p.forces_inc):
+        inputs.append((p.forces, _input_digest(p.forces), 'forces table'))
+        inputs.append((p.forces_inc, _input_digest(p.forces_inc), 'forces_inc table'))
     p.num_eigvalues = d['num_eigvalues']
     p.out_num_cores = 1
     p.analysis.initialInc = 0.5
@@ -1165,6 +1178,55 @@ def outcome_of(kind, obj, op, env, d, seam, key, fault=None):
     return ('value', canon(val), None)
 
 
+class _DiskFault(OSError):
+    pass
+
+
+def save_with_disk_fault(kind, obj, fault):
+    """obj.save() with the file system failing underneath it; returns True if the failure was injected"""
+    import builtins
+    real_open = builtins.open
+    fired = [False]
+
+    class _ShortWriter(object):
+        def __init__(self, f, limit):
+            self.f, self.left = f, limit
+
+        def write(self, data):
+            if len(data) > self.left:
+                self.f.write(data[:self.left])
+                self.left = 0
+                fired[0] = True
+                raise _DiskFault(28, 'No space left on device (injected, short write)')
+            self.left -= len(data)
+            return self.f.write(data)
+
+        def __getattr__(self, name):
+            return getattr(self.f, name)
+
+        def __enter__(self):
+            return self
+
+        def __exit__(self, *a):
+            return self.f.__exit__(*a)
+
+    def faulty_open(name, mode='r', *a, **kw):
+        if 'w' in mode and os.path.basename(str(name)).startswith('subject'):
+            if fault['kind'] == 'enospc_at_open':
+                fired[0] = True
+                raise _DiskFault(28, 'No space left on device (injected, open)')
+            return _ShortWriter(real_open(name, mode, *a, **kw), int(fault.get('bytes', 0)))
+        return real_open(name, mode, *a, **kw)
+    import os
+    obj.name = 'subject'
+    builtins.open = faulty_open
+    try:
+        obj.save()
+    finally:
+        builtins.open = real_open
+    return fired[0]
+
+
 def save_load(kind, obj):
     if kind == 'panel':
         from compmech.panel._panel import load
@@ -1316,7 +1378,25 @@ def execute(scen):
                 prev_ops.append(name)
                 continue
             if name == 'save_load':
-                if kind in ('panel', 'shell', 'bay'):
+                if kind in ('panel', 'shell', 'bay') and (op.get('fault') or {}).get('seam') == 'disk':
+                    # the save fails half-way: the live object goes on being used and must answer as before; what is on disk
+                    # is either refused by load() or - if it loads - an object that answers as before, too
+                    try:
+                        save_with_disk_fault(kind, subject, op['fault'])
+                        bump(res['probes'], 'save_survived_disk_fault')
+                    except _DiskFault:
+                        bump(res['faults'], 'disk_%s_during_save' % op['fault']['kind'])
+                    except Exception as e:
+                        bump(res['exceptions'], 'save_disk_fault_' + type(e).__name__)
+                elif kind in ('panel', 'shell', 'bay') and op.get('nl'):
+                    # a checkpoint: the object is saved and the caller goes on with the live object
+                    try:
+                        subject.name = 'subject'
+                        subject.save()
+                        bump(res['probes'], 'save_then_continue_with_live_object')
+                    except Exception as e:
+                        bump(res['exceptions'], 'save_' + type(e).__name__)
+                elif kind in ('panel', 'shell', 'bay'):
                     try:
                         subject = save_load(kind, subject)
                         bump(res['probes'], 'save_load_roundtrip')
